@@ -26,6 +26,10 @@ by their documented length contracts:
       `for` loop from an arbitrary state with len < count (one processor moved; break exactly at
       count; back to the outer head with len <= count).
   S5  policy RequireDifferent: None iff fewer than n regions, else one element per each of n regions.
+  S7  take(n): the resource-quota guard at the entry returns None iff a limit exists and n exceeds it.
+  S8  reduce_processors_until_under_quota (the cut take_all applies): without a limit the vector is
+      returned unchanged; with a limit, one inductive step of the pop loop from an arbitrary length
+      (removes exactly one while len > limit, leaves with len <= limit, no panic).
   S6  policy PreferSame, the region sort key closure returns min(candidates in the region, n) (regions
       that can satisfy the request alone are visited first: "as few regions as possible").
 
@@ -155,6 +159,21 @@ def h_push(ex, path, vals, args):
     return ("TUPLE", [])
 
 
+def h_pop(ex, path, vals, args):
+    key = "@len:" + tok_of(args[0])
+    n = path.env[key]
+    path.env[key] = z3.If(n == 0, n, n - 1)
+    return S.enum(z3.If(n == 0, z3.BitVecVal(0, 8), z3.BitVecVal(1, 8)), {1: [("OPAQUE", "Processor")]})
+
+
+def h_quota_limit(ex, path, vals, args):
+    ex.fresh += 1
+    d = z3.BitVec("quota_is_some_%d" % ex.fresh, 8)
+    path.pc.append(z3.Or(d == 0, d == 1))
+    q = bv("quota_limit")
+    return S.enum(d, {1: [q]})
+
+
 def h_map_len(ex, path, vals, args):
     return path.env["@len:map"]
 
@@ -187,6 +206,8 @@ OPAQUE = (
     (r"^<processor::Processor as Clone>::clone$", "clone", "unit"),
     (r"^Vec::<processor::Processor>::remove$", "remove", h_remove),
     (r"^Vec::<processor::Processor>::push$", "push", h_push),
+    (r"^Vec::<processor::Processor>::pop$", "pop", h_pop),
+    (r"^processor_set_builder::ProcessorSetBuilder::resource_quota_processor_count_limit$", "quota_limit", h_quota_limit),
     (r"^HashMap::<u32, Vec<processor::Processor>, foldhash::fast::RandomState>::retain::<", "retain", "unit"),
     (r"^HashMap::<u32, Vec<processor::Processor>, foldhash::fast::RandomState>::len$", "map_len", h_map_len),
     (r"^HashMap::<u32, Vec<processor::Processor>, foldhash::fast::RandomState>::iter$", "map_iter", h_map_iter),
@@ -621,6 +642,139 @@ def s6_prefer_same_sort_key(funcs, out):
     return viol
 
 
+def s7_quota_guard(fn, funcs, out):
+    """take(n): the quota guard at the entry: None iff a limit exists and n exceeds it"""
+    b_cand = block_with_call(fn, r"ProcessorSetBuilder::candidates_by_memory_region\(")
+    none_blocks = [n for n, b in fn.blocks.items() if not b.cleanup and any(t.startswith("_0 = Option::<processor_set::ProcessorSet>::None") for (t, _) in b.stmts)]
+    ex = S.SymExec(funcs, OPAQUE, {})
+    count = bv("count")
+    env = {"_1": ("OPAQUE", "self"), "_2": count}
+    paths = ex.run(fn, "bb0", env, stop=tuple([b_cand] + none_blocks))
+    viol = []
+    seen = set()
+    q = bv("quota_limit")
+    for pa in paths:
+        if pa.outcome[0] != "EXIT":
+            r, m, s = check([count != 0] + pa.pc)
+            out["queries"].append(dict(q="S7 quota guard: %s path infeasible" % pa.outcome[0].lower(), result=str(r), s=s))
+            if r != z3.unsat:
+                out["noverdict"].append("S7: %s feasible or unknown" % (pa.outcome,))
+            continue
+        some = z3.Or(*[c for c in pa.pc if "quota_is_some" in str(c) and "== 1" in str(c).replace("\n", " ")]) if False else None
+        dvars = [v for c in pa.pc for v in _vars(c) if str(v).startswith("quota_is_some")]
+        d = dvars[0] if dvars else None
+        if d is None:
+            raise S.Unsupported("quota guard path without the limit call")
+        if pa.outcome[1] == b_cand:
+            seen.add("proceeds")
+            post = z3.Or(d == 0, z3.ULE(count, q))
+            what = "selection proceeds only if there is no limit or n <= limit"
+        else:
+            seen.add("none")
+            post = z3.And(d == 1, z3.UGT(count, q))
+            what = "None at the guard only if a limit exists and n exceeds it"
+        r, m, s = check([count != 0] + pa.pc + [z3.Not(post), z3.ULE(count, 40), z3.ULE(q, 40)])     # replay-friendly first
+        if r == z3.unsat:
+            r, m, s2 = check([count != 0] + pa.pc + [z3.Not(post)])
+            s += s2
+        out["queries"].append(dict(q="S7 quota guard: " + what, result=str(r), s=s))
+        if r == z3.sat:
+            viol.append(dict(label="take(n) quota guard: %s fails" % what, line=None, policy="quota_guard",
+                             assignment=dict(count=m.eval(count, True).as_long(), limit=m.eval(q, True).as_long(), has_limit=m.eval(d, True).as_long())))
+        elif r != z3.unsat:
+            out["noverdict"].append("S7: solver %s" % r)
+    out["witness"].append(dict(q="S7 reached %s" % sorted(seen), ok=seen == {"proceeds", "none"}))
+    out["functions"].append("ProcessorSetBuilder::take, blocks bb0..%s = resource-quota guard (MIR, %d paths)" % (b_cand, len(paths)))
+    return viol
+
+
+def _vars(e):
+    out = []
+    def go(x):
+        if z3.is_const(x) and x.decl().kind() == z3.Z3_OP_UNINTERPRETED:
+            out.append(x)
+        for c in x.children():
+            go(c)
+    go(e)
+    return out
+
+
+def s8_quota_cut(funcs, out):
+    """reduce_processors_until_under_quota: no limit -> unchanged; limit -> one inductive step of the pop loop"""
+    c = [f for k, f in funcs.items() if re.search(r"processor_set_builder.*::reduce_processors_until_under_quota$", k)]
+    if len(c) != 1:
+        raise S.Unsupported("reduce_processors_until_under_quota not found exactly once (%d)" % len(c))
+    fn = c[0]
+    P = preds(fn)
+    b_pop = block_with_call(fn, r"Vec::<processor::Processor>::pop\(")
+    b_sw = P[b_pop][0]
+    b_head = P[b_sw][0]
+    ms = re.match(r"^switchInt\(.+?\) -> \[0: (bb\d+), otherwise: (bb\d+)\];$", fn.blocks[b_sw].term[0])
+    b_exit = ms.group(1)
+    _, arg = call_dst_and_args(fn, b_head)
+    ref_local = re.match(r"^(?:move|copy) (_\d+)$", arg.strip()).group(1)
+    vec_local = [re.match(r"^%s = &(_\d+);$" % re.escape(ref_local), t).group(1) for (t, _) in fn.blocks[b_head].stmts if re.match(r"^%s = &(_\d+);$" % re.escape(ref_local), t)][0]
+    cmp_ = [t for (t, _) in fn.blocks[b_sw].stmts if re.match(r"^_\d+ = (Gt|Ge|Lt|Le|Ne|Eq)\(move _\d+, copy (_\d+)\);$", t)]
+    if len(cmp_) != 1:
+        raise S.Unsupported("quota cut loop test has an unexpected shape: %r" % (fn.blocks[b_sw].stmts,))
+    lim_local = re.match(r"^_\d+ = \w+\(move _\d+, copy (_\d+)\);$", cmp_[0]).group(1)
+    viol = []
+    # (a) entry: no limit -> the vector is returned unchanged; limit -> the loop head is reached with the same vector
+    ex = S.SymExec(funcs, OPAQUE, {})
+    plen0 = bv("processors_len")
+    paths = ex.run(fn, "bb0", {"_1": ("OPAQUE", "self"), "_2": ("VEC", "processors"), "@len:processors": plen0}, stop=(b_head,))
+    seen = set()
+    for pa in paths:
+        if pa.outcome[0] == "RETURN":
+            seen.add("unchanged")
+            v = pa.outcome[1]
+            ok = isinstance(v, tuple) and v == ("VEC", "processors")
+            dvars = [x for c_ in pa.pc for x in _vars(c_) if str(x).startswith("quota_is_some")]
+            r, m, s = check(pa.pc + [dvars[0] != 0]) if dvars else (z3.sat, None, 0)
+            out["queries"].append(dict(q="S8 quota cut: the early return (vector unchanged) happens only without a limit", result=str(r) if ok else "sat", s=s))
+            if not ok or r != z3.unsat:
+                viol.append(dict(label="quota cut returns early although a limit exists (or returns a different vector)", line=None, policy="quota_cut", assignment=dict(count=1, limit=1, processors_len=2)))
+        elif pa.outcome[0] == "EXIT":
+            seen.add("loop")
+        else:
+            r, m, s = check(pa.pc)
+            out["queries"].append(dict(q="S8 quota cut entry: %s path infeasible" % pa.outcome[0].lower(), result=str(r), s=s))
+            if r != z3.unsat:
+                out["noverdict"].append("S8 entry: %s feasible or unknown" % (pa.outcome,))
+    # (b) one step of the loop from an arbitrary length
+    ex = S.SymExec(funcs, OPAQUE, {})
+    plen, lim = bv("processors_len"), bv("quota_limit")
+    paths2 = ex.run(fn, b_head, {vec_local: ("VEC", "processors"), "@len:processors": plen, lim_local: lim}, stop=(b_head, b_exit))
+    for pa in paths2:
+        if pa.outcome[0] in ("PANIC", "UNREACHABLE"):
+            r, m, s = check(pa.pc)
+            out["queries"].append(dict(q="S8 quota cut step: %s path infeasible (%s)" % (pa.outcome[0].lower(), pa.outcome[1]), result=str(r), s=s))
+            if r == z3.sat:
+                viol.append(dict(label="quota cut loop panics", line=pa.outcome[-1], policy="quota_cut",
+                                 assignment=dict(processors_len=m.eval(plen, True).as_long(), limit=m.eval(lim, True).as_long(), count=1)))
+            continue
+        now = pa.env["@len:processors"]
+        if pa.outcome[1] == b_exit:
+            seen.add("exit")
+            post, what = z3.And(z3.ULE(now, lim), now == plen), "leaves the loop with len <= limit, nothing removed on the way out"
+        else:
+            seen.add("step")
+            post, what = z3.And(now == plen - 1, z3.UGT(plen, lim)), "removes exactly one processor, and only while len > limit"
+        r, m, s = check(pa.pc + [z3.Not(post), z3.ULE(plen, 40), z3.ULE(lim, 40)])     # replay-friendly first
+        if r == z3.unsat:
+            r, m, s2 = check(pa.pc + [z3.Not(post)])
+            s += s2
+        out["queries"].append(dict(q="S8 quota cut step: " + what, result=str(r), s=s))
+        if r == z3.sat:
+            viol.append(dict(label="quota cut loop: %s fails" % what, line=None, policy="quota_cut",
+                             assignment=dict(processors_len=m.eval(plen, True).as_long(), limit=m.eval(lim, True).as_long(), count=1)))
+        elif r != z3.unsat:
+            out["noverdict"].append("S8: solver %s" % r)
+    out["witness"].append(dict(q="S8 reached %s" % sorted(seen), ok=seen == {"unchanged", "loop", "exit", "step"}))
+    out["functions"].append("%s (MIR, entry %d paths, loop step %d paths)" % (fn.name.split(">::")[-1], len(paths), len(paths2)))
+    return viol
+
+
 def replay(v, repo):
     nd = os.path.join(M.VERIF, "native", "selection_replay")
     cache = os.environ.get("FOLO_VERIF_CACHE") or os.path.join(M.VERIF, ".cache")
@@ -643,7 +797,15 @@ def replay(v, repo):
     n = a["count"]
     # candidate hardware shapes (region sizes) derived from the assignment; the violation is
     # reproduced if the real crate breaks C09's cardinality clause on any of them
-    if pol == "prefer_same_order":
+    if pol == "quota_guard":
+        lim = max(1, min(a.get("limit", 1), 40))
+        shapes = [(k, [lim, lim + 3]) for k in sorted({max(1, min(a["count"], 44)), lim, lim + 1, max(1, lim - 1)})]
+        pol = "quota_take"
+    elif pol == "quota_cut":
+        lim = max(1, min(a.get("limit", 1), 40))
+        shapes = [(1, [lim, lim + 2]), (1, [lim, 2, 2, lim]), (1, [lim, 1, 1, 1, 1, 1][: lim + 3])]
+        pol = "quota_take_all"
+    elif pol == "prefer_same_order":
         # a region that can satisfy the request alone next to smaller ones: the result must stay inside one region
         shapes = [[max(1, n - 1), n + 1], [max(1, n // 2), n + 3, max(1, n // 2)], [n + 1] + [max(1, n - 1)] * 3,
                   (5, [2, 6]), (8, [3, 9, 3]), (6, [2, 2, 7]), (7, [4, 4, 4, 8])]
@@ -680,13 +842,14 @@ def replay(v, repo):
 
 
 OUTSIDE = [
-    "everything but cardinality: membership in the source set, filters / exclusions / efficiency classes, distinctness, the region constraints themselves (which regions the chosen processors come from), the resource quota, take_all; in RequireDifferent the per-region closure (one processor per chosen region) is assumed to yield one element",
+    "everything but cardinality: membership in the source set, filters / exclusions / efficiency classes, distinctness, the region constraints themselves (which regions the chosen processors come from), how take_all builds its set per policy and that it applies the quota cut on every arm, the float quota -> floor(max_processor_time).max(1) conversion; in RequireDifferent the per-region closure (one processor per chosen region) is assumed to yield one element",
     "the containers and the random sampling themselves (abstracted to their documented length contracts, listed in the evidence assumptions)",
     "more than 2^32 processors / regions (lengths are assumed <= 2^32 so that usize sums cannot wrap)",
 ]
 ASSUMPTIONS = [
     "mirsym: containers are abstracted to a symbolic length; Vec::len returns it; slice.sample(rng, amount) yields min(amount, len) elements (rand's documented contract); Vec::extend adds the number of yielded elements; collect_vec has the yielded length",
     "mirsym: VecDeque::pop_front returns an arbitrary Some/None; HashMap::get of a key taken from keys() returns Some; every candidate region is non-empty (regions are built by grouping candidates)",
+    "mirsym: resource_quota_processor_count_limit() is an arbitrary Option<usize>; Vec::pop returns Some and shortens a non-empty vector by one, None on an empty one",
     "mirsym: Try::branch / FromResidual for Option, <usize as Ord>::min, NonZero::get by their documented semantics",
     "mirsym: HashMap::values_mut().next() is an arbitrary Some(non-empty region)/None; IteratorRandom::choose is an arbitrary Some/None; Vec::remove / Vec::push change the length by one; HashMap::len / iter().sample(rng, n) / into_iter / map / collect_vec carry min(n, len) elements; HashMap::is_empty and retain are opaque",
 ]
@@ -719,7 +882,8 @@ def main():
         return
     for name, q in (("s1_any", lambda: s1_any(fn, funcs, out)), ("s2_prefer_same", lambda: s2_prefer_same(fn, funcs, out)), ("s3_require_same_filter", lambda: s3_require_same_filter(funcs, out)),
                     ("s4_prefer_different", lambda: s4_prefer_different(fn, funcs, out)), ("s5_require_different", lambda: s5_require_different(fn, funcs, out)),
-                    ("s6_prefer_same_sort_key", lambda: s6_prefer_same_sort_key(funcs, out))):
+                    ("s6_prefer_same_sort_key", lambda: s6_prefer_same_sort_key(funcs, out)),
+                    ("s7_quota_guard", lambda: s7_quota_guard(fn, funcs, out)), ("s8_quota_cut", lambda: s8_quota_cut(funcs, out))):
         try:
             viol += q()
         except (S.Unsupported, KeyError, IndexError, AttributeError) as e:
